@@ -16,8 +16,11 @@ use rust_rule_engine::{EngineConfig, Facts, GRLParser, KnowledgeBase, RustRuleEn
 use std::cell::RefCell;
 use std::collections::{BTreeMap, BTreeSet};
 
-const T0: i64 = 1_924_992_000; // 2031-01-01T00:00:00Z
-const DAY: i64 = 86_400;
+// all instants of this check are MILLISECONDS since the epoch (date windows and evaluation
+// instants may fall inside a second)
+const T0: i64 = 1_924_992_000_000; // 2031-01-01T00:00:00Z
+const SEC: i64 = 1_000;
+const DAY: i64 = 86_400 * SEC;
 
 #[derive(Clone, Debug, PartialEq)]
 enum Call {
@@ -57,7 +60,7 @@ struct Case {
 
 fn call_json(c: &Call) -> Json {
     match c {
-        Call::ExecAt(t) => json!({"execute_at_time": t, "rel": format!("T0{:+}s", t - T0)}),
+        Call::ExecAt(t) => json!({"execute_at_time_ms": t, "rel": format!("T0{:+}ms", t - T0)}),
         Call::ExecNow => json!("execute"),
         Call::ExecCallback => json!("execute_with_callback"),
         Call::SetFocus(g) => json!({"set_agenda_focus": g}),
@@ -82,8 +85,12 @@ fn call_from(j: &Json) -> Option<Call> {
             _ => return None,
         });
     }
-    if let Some(t) = j.get("execute_at_time") {
+    if let Some(t) = j.get("execute_at_time_ms") {
         return Some(Call::ExecAt(t.as_i64()?));
+    }
+    // witnesses written before the unit became milliseconds
+    if let Some(t) = j.get("execute_at_time") {
+        return Some(Call::ExecAt(t.as_i64()? * SEC));
     }
     if let Some(g) = j.get("set_agenda_focus") {
         return Some(Call::SetFocus(g.as_str()?.into()));
@@ -113,8 +120,8 @@ impl Case {
             "rules": self.rules.iter().map(|r| json!({
                 "rule": rule_json(&r.ast),
                 "salience": r.salience,
-                "effective": r.effective,
-                "expires": r.expires,
+                "effective_ms": r.effective,
+                "expires_ms": r.expires,
                 "enabled": r.enabled,
             })).collect::<Vec<_>>(),
             "store": self.store.to_json(),
@@ -128,8 +135,8 @@ impl Case {
             rules.push(R {
                 ast: rule_from(r.get("rule")?)?,
                 salience: r.get("salience")?.as_i64()? as i32,
-                effective: r.get("effective").and_then(|v| v.as_i64()),
-                expires: r.get("expires").and_then(|v| v.as_i64()),
+                effective: r.get("effective_ms").and_then(|v| v.as_i64()).or_else(|| r.get("effective").and_then(|v| v.as_i64()).map(|t| t * SEC)),
+                expires: r.get("expires_ms").and_then(|v| v.as_i64()).or_else(|| r.get("expires").and_then(|v| v.as_i64()).map(|t| t * SEC)),
                 enabled: r.get("enabled")?.as_bool()?,
             });
         }
@@ -178,8 +185,8 @@ fn group_of(r: &R) -> String {
     r.ast.attrs.agenda_group.clone().unwrap_or_else(|| "MAIN".to_string())
 }
 
-fn to_dt(secs: i64) -> DateTime<Utc> {
-    DateTime::<Utc>::from_timestamp(secs, 0).expect("timestamp in range")
+fn to_dt(ms: i64) -> DateTime<Utc> {
+    DateTime::<Utc>::from_timestamp_millis(ms).expect("timestamp in range")
 }
 
 fn judge(case: &Case) -> (Verdict, Obs) {
@@ -741,11 +748,14 @@ fn gen_rule(rng: &mut Rng, idx: usize, n_groups: usize) -> R {
     if n_groups > 0 && rng.chance(1, 4) {
         actions.push(Action::ActivateAgendaGroup(GROUPS[rng.below(n_groups)].to_string()));
     }
-    let window = match rng.below(6) {
+    let window = match rng.below(8) {
         0 => (Some(T0), Some(T0 + 2 * DAY)),
         1 => (Some(T0 + DAY), None),
         2 => (None, Some(T0 + DAY)),
         3 => (Some(T0 + DAY), Some(T0 + 2 * DAY)),
+        // boundaries inside a second
+        4 => (Some(T0 + DAY + 500), Some(T0 + 2 * DAY + 500)),
+        5 => (Some(T0 + 500), Some(T0 + DAY + 250)),
         _ => (None, None),
     };
     R {
@@ -788,7 +798,13 @@ fn gen_case(rng: &mut Rng) -> Case {
     for _ in 0..n_calls {
         let c = match rng.below(20) {
             0 => Call::ExecCallback,
-            1..=7 => Call::ExecAt(*rng.pick(&[T0 - 1, T0, T0 + 1, T0 + DAY - 1, T0 + DAY, T0 + DAY + 1, T0 + 2 * DAY, T0 + 2 * DAY + 1, T0 + 3 * DAY])),
+            1..=7 => {
+                // a boundary instant, then an offset from it: exactly at, one millisecond / one
+                // second either side, and inside the same second as a fractional boundary
+                let base = *rng.pick(&[T0, T0 + DAY, T0 + 2 * DAY]);
+                let off = *rng.pick(&[-SEC, -1, 0, 0, 1, SEC, 200, 250, 251, 499, 500, 501, 700, 999, 3 * DAY]);
+                Call::ExecAt(base + off)
+            }
             8 => {
                 if rng.bool() {
                     Call::ExecNow
@@ -879,7 +895,7 @@ impl Check for C02 {
         "C02"
     }
     fn rule(&self) -> String {
-        "2-8 rules over boolean flags that the actions flip (self- and mutually triggering), salience from {-2,-1,0,0,1,1,i32::MAX,i32::MIN} (ties on purpose), no-loop / lock-on-active with probability 1/2, 0-3 agenda groups, 2 activation groups, date windows around three instants (evaluation exactly at, one second before and after each boundary), 1/8 disabled, ActivateAgendaGroup actions; histories of 1-6 calls (execute_at_time, execute, execute_with_callback, set/pop/clear focus, activate_agenda_group, reset_no_loop_tracking, set_rule_enabled, remove_rule / re-add of a removed rule, execute_workflow_step) on one engine, max_cycles 1-5; plus the exhaustive grid of all 32x32 attribute subsets on two rules with a fixed activator rule and call history. Non-trivial: at least 2 firings over at least 2 passes; distinct by the whole case.".into()
+        "2-8 rules over boolean flags that the actions flip (self- and mutually triggering), salience from {-2,-1,0,0,1,1,i32::MAX,i32::MIN} (ties on purpose), no-loop / lock-on-active with probability 1/2, 0-3 agenda groups, 2 activation groups, date windows around three instants, some with boundaries inside a second (instants are milliseconds; evaluation exactly at, one millisecond and one second before and after each boundary, and at several offsets inside the boundary's own second), 1/8 disabled, ActivateAgendaGroup actions; histories of 1-6 calls (execute_at_time, execute, execute_with_callback, set/pop/clear focus, activate_agenda_group, reset_no_loop_tracking, set_rule_enabled, remove_rule / re-add of a removed rule, execute_workflow_step) on one engine, max_cycles 1-5; plus the exhaustive grid of all 32x32 attribute subsets on two rules with a fixed activator rule and call history. Non-trivial: at least 2 firings over at least 2 passes; distinct by the whole case.".into()
     }
     fn assumptions(&self) -> Vec<String> {
         vec![
